@@ -90,8 +90,8 @@ ASSUMPTIONS = [
     'metadata cases carry at least one key; statistics cases observe at least one task / result '
     '(the verdict of a summary that observed nothing is not documented, cf. C18)',
 ]
-BUDGET = {'quick': {'cases': 6400, 'shards': 16, 'seconds': 150, 'shrink_s': 20},
-          'thorough': {'cases': 160000, 'shards': 16, 'seconds': 840, 'shrink_s': 60}}
+BUDGET = {'quick': {'cases': 9600, 'shards': 16, 'seconds': 150, 'shrink_s': 20},
+          'thorough': {'cases': 320000, 'shards': 16, 'seconds': 840, 'shrink_s': 60}}
 FLOORS = {'nontrivial': 0.12, 'family=rendering': 0.6, 'family=chain': 0.08,
           'result=false': 0.3, 'result=true': 0.12, 'pattern=mixed': 0.15, 'has-table': 0.25,
           'kind=equal': 0.04, 'kind=approx': 0.035, 'kind=student': 0.07, 'kind=bonferroni': 0.035,
@@ -104,6 +104,8 @@ FLOORS = {'nontrivial': 0.12, 'family=rendering': 0.6, 'family=chain': 0.08,
           'verb=INTERMEDIATE': 0.05, 'verb=FULL_DETAILS': 0.045, 'verb=DEVELOPMENT': 0.03,
           'detail-table-checked': 0.07, 'detail-partial-rows': 0.01, 'nested-part-rendered': 0.02,
           'stats-no-ok-item': 0.02, 'bylabels-no-group': 0.001,
+          'outer=True/nested=False': 0.008, 'outer=False/nested=False': 0.03,
+          'outer=True/nested=True': 0.015,
           'chain-slice-rendered': 0.04, 'chain-join': 0.04, 'chain-index': 0.015, 'chain-copy': 0.02,
           'chain-scalar-table': 0.025, 'chain-default-hl': 0.03, 'chain-hl-nonuniform': 0.05}
 
@@ -118,12 +120,15 @@ LABEL_VALUES = ['x', 'y', 'z']
 MD_KEYS = ['k0', 'k1', 'k2', 'k3', 'k4']
 MD_VALUES = ['v', 'w', 'u7', 1, 2, 2.5, True]
 NUM_FMT = '{:11.6g}'
+DESCR = 'description of the test'
 _KO = re.compile(r'\bKO\b')
 
 # closeness codes of a compared bin (sign = direction of the shift):
-#  0 same value; 1 relative shift 1e-9; 2 shift of 0.5 combined sigma; 3 of 20 sigma; 4 of 1000 sigma
+#  0 same value; 1 relative shift 1e-9; 2 shift of 0.5 combined sigma; 3 of 20 sigma; 4 of 1000 sigma;
+#  5 of 3 sigma (marginal: fails most Student tests but survives a Bonferroni correction over >= 2
+#  bins, so that a nested Student result can be false under a true (Holm-)Bonferroni result)
 PASS_CODES = {'equal': [0], 'approx': [0, 1, -1], 'student': [0, 1, 2, -2]}
-FAIL_CODES = {'equal': [1, 2, -3, 4], 'approx': [2, -2, 3, -4], 'student': [3, -3, 4, -4]}
+FAIL_CODES = {'equal': [1, 2, -3, 4], 'approx': [2, -2, 3, -4], 'student': [3, -3, 4, 5, -5, 5]}
 
 
 # --------------------------------------------------------------------------
@@ -174,9 +179,12 @@ def _dataset_case(draw):
     nds = draw(st.sampled_from([1, 1, 2, 3]))
     pattern = _pattern(draw, nds, size)
     values = [draw(_VALUE) for _ in range(size)]
+    # marginal: failing bins lie 3 sigma away, a (Holm-)Bonferroni correction over >= 2 bins accepts them
+    marginal = kind in ('bonferroni', 'holm') and draw(st.integers(0, 2)) == 0
+    fail_codes = [5, -5] if marginal else FAIL_CODES[base]
     dsets = []
     for k in range(nds):
-        codes = [draw(st.sampled_from(FAIL_CODES[base] if bad else PASS_CODES[base]))
+        codes = [draw(st.sampled_from(fail_codes if bad else PASS_CODES[base]))
                  for bad in pattern[k]]
         dsets.append({'name': draw(st.sampled_from(NAMES)), 'codes': codes,
                       'relerr': draw(_RELERR)})
@@ -184,8 +192,8 @@ def _dataset_case(draw):
     return {'kind': kind, 'shape': shape, 'bins': bins, 'values': values,
             'ref': {'name': draw(st.sampled_from(NAMES)), 'relerr': draw(_RELERR)},
             'dsets': dsets, 'alpha': draw(st.sampled_from([0.01, 0.05])),
-            'ndf': draw(st.sampled_from([None, None, 5, 30])),
-            'alpha2': draw(st.sampled_from([0.01, 0.05, 0.2])),
+            'ndf': None if marginal else draw(st.sampled_from([None, None, 5, 30])),
+            'alpha2': 0.01 if marginal else draw(st.sampled_from([0.01, 0.05, 0.2])),
             'bad_bins': bad_bins, 'verb': draw(_VERB), 'rep': draw(_REP)}
 
 
@@ -319,7 +327,7 @@ def _shifted(val, sigma, code):
     sign = 1.0 if code > 0 else -1.0
     if mag == 1:
         return val * (1.0 + sign * 1e-9)
-    return val + sign * {2: 0.5, 3: 20.0, 4: 1000.0}[mag] * sigma
+    return val + sign * {2: 0.5, 3: 20.0, 4: 1000.0, 5: 3.0}[mag] * sigma
 
 
 def _dataset_arrays(case):
@@ -353,17 +361,17 @@ def _dataset_result(case):
              for idx, (dset, (val, err)) in enumerate(zip(case['dsets'], others))]
     kind = case['kind']
     if kind == 'equal':
-        test = TestEqual(dsref, *dsets, name='the_test', description='desc')
+        test = TestEqual(dsref, *dsets, name='the_test', description=DESCR)
     elif kind == 'approx':
-        test = TestApproxEqual(dsref, *dsets, name='the_test', description='desc')
+        test = TestApproxEqual(dsref, *dsets, name='the_test', description=DESCR)
     else:
-        test = TestStudent(dsref, *dsets, name='the_test', description='desc',
+        test = TestStudent(dsref, *dsets, name='the_test', description=DESCR,
                            alpha=case['alpha'], ndf=case['ndf'])
         if kind == 'bonferroni':
-            test = TestBonferroni(test=test, name='the_bonf', description='desc',
+            test = TestBonferroni(test=test, name='the_bonf', description=DESCR,
                                   alpha=case['alpha2'])
         elif kind == 'holm':
-            test = TestHolmBonferroni(test=test, name='the_holm', description='desc',
+            test = TestHolmBonferroni(test=test, name='the_holm', description=DESCR,
                                       alpha=case['alpha2'])
     if case['bad_bins']:
         res = actually_eval_test(test)
@@ -391,19 +399,19 @@ def _stats_result(case):
             section['result'] = [_small_result(spec) for spec in task['results']]
         task_results.append((task['name'], section))
     if case['kind'] == 'stats_tasks':
-        return TestStatsTasks(name='stats', description='desc',
+        return TestStatsTasks(name='stats', description=DESCR,
                               task_results=task_results).evaluate()
     if case['kind'] == 'stats_tests':
-        return TestStatsTests(name='stats', description='desc',
+        return TestStatsTests(name='stats', description=DESCR,
                               task_results=task_results).evaluate()
     return actually_eval_test(TestStatsTestsByLabels(
-        name='stats', description='desc', task_results=task_results,
+        name='stats', description=DESCR, task_results=task_results,
         by_labels=tuple(case['by_labels'])))
 
 
 def _metadata_result(case):
     dmd = {samp['name']: dict(samp['md']) for samp in case['samples']}
-    return TestMetadata(dmd, name='the_md', description='desc').evaluate()
+    return TestMetadata(dmd, name='the_md', description=DESCR).evaluate()
 
 
 def _build_result(case):
@@ -498,14 +506,25 @@ def _marks(blocks):
     return False
 
 
-def _is_outer(blk):
-    """Does this block belong to the (Holm-)Bonferroni part of a rendering?"""
+def _part_of(blk):
+    """'outer' / 'nested': the part of a (Holm-)Bonferroni rendering a block belongs to,
+    recognised by the words Bonferroni / Student in table headers and sentences."""
     if blk['type'] == 'table':
         heads = blk['headers'] if blk['n_header_rows'] == 1 else sum(blk['headers'], [])
-        return any('Bonferroni' in h for h in heads)
-    if blk['type'] == 'text':
-        return 'Bonferroni' in blk['text']
-    return True
+        words = ' '.join(heads)
+    elif blk['type'] == 'text':
+        words = blk['text']
+    else:
+        return 'outer'
+    if 'Bonferroni' in words:
+        return 'outer'
+    if 'Student' in words:
+        return 'nested'
+    return 'outer'
+
+
+def _is_outer(blk):
+    return _part_of(blk) == 'outer'
 
 
 def _truth(result):
@@ -655,6 +674,7 @@ def _run_rendering(case, out):
     inner_truth = None
     if isinstance(result, (TestResultBonferroni, TestResultHolmBonferroni)):
         inner_truth = bool(result.first_test_res)
+        out.labels.append(f'outer={truth}/nested={inner_truth}')
     mixed = (not failed_eval) and _mixed(case, result, kind)
     out.labels.append('result=true' if truth else 'result=false')
     if mixed:
@@ -719,8 +739,10 @@ def _run_rendering(case, out):
     # ---- (a) mark <=> false, per rendered result
     nested = inner_truth is not None and rep in ('fulltable', 'full')
     if nested:
-        outer = [b for b in parsed.blocks if b['type'] != 'image' and _is_outer(b)]
-        inner = [b for b in parsed.blocks if b['type'] != 'image' and not _is_outer(b)]
+        body = [b for b in parsed.blocks
+                if b['type'] != 'image' and not (b['type'] == 'text' and b['text'] == DESCR)]
+        outer = [b for b in body if _is_outer(b)]
+        inner = [b for b in body if not _is_outer(b)]
         parts = [('outer', outer, truth)]
         if inner:
             parts.append(('nested', inner, inner_truth))
